@@ -209,6 +209,8 @@ class Public_key(object):
             xy = G.mul_add(u1, self.point, u2)
         else:
             xy = u1 * G + u2 * self.point
+        if xy == ellipticcurve.INFINITY:
+            return False
         v = xy.x() % n
         return v == r
 
